@@ -215,6 +215,9 @@ fn install_hook() {
         } else {
             "<non-string panic payload>".to_string()
         };
+        if std::env::var("VERIF_ROBUST_BT").is_ok() {
+            eprintln!("PANIC {} {}\n{}", loc, msg, std::backtrace::Backtrace::force_capture());
+        }
         let _ = LAST_PANIC.try_with(|c| *c.borrow_mut() = Some((loc, msg)));
     }));
 }
@@ -250,7 +253,8 @@ pub fn exec_case(w: &Arc<ep::RWorld>, class: &'static ep::Class, input: &gen::In
             return Outcome { kind: Kind::Abort, loc: "spawn".into(), msg: format!("{}", e), ms: 0, peak: 0 };
         }
     };
-    match rx.recv_timeout(Duration::from_millis(lim.timeout_ms)) {
+    let budget_ms = lim.timeout_ms + 4_000 * (input.len() as u64 >> 20);
+    match rx.recv_timeout(Duration::from_millis(budget_ms)) {
         Ok((kind, loc, msg, peak)) => {
             let _ = h.join();
             let ms = t0.elapsed().as_millis() as u64;
@@ -262,7 +266,7 @@ pub fn exec_case(w: &Arc<ep::RWorld>, class: &'static ep::Class, input: &gen::In
         Err(_) => Outcome {
             kind: Kind::Timeout,
             loc: "wall-clock".into(),
-            msg: format!(">{} ms", lim.timeout_ms),
+            msg: format!(">{} ms", budget_ms),
             ms: t0.elapsed().as_millis() as u64,
             peak: 0,
         },
